@@ -43,7 +43,7 @@ func resetCaches() bool {
 // ---- contexts ----
 
 func sqlFor(ctx string, c Case) string {
-	e := render(c.Expr)
+	e := renderStyle(c.Expr, c.Lower)
 	switch ctx {
 	case "select":
 		return "SELECT " + e + " AS r FROM stream"
@@ -353,7 +353,7 @@ func runExpr(c Case, res *pbt.Result) {
 			perm[i] = i
 		}
 	}
-	text := render(c.Expr)
+	text := renderStyle(c.Expr, c.Lower)
 	for _, ctx := range c.Ctxs {
 		sql := sqlFor(ctx, c)
 		a, err := open(sql)
@@ -503,6 +503,7 @@ func genCase(t *rapid.T) Case {
 	}
 	ws := wraps[ty]
 	c.Wrap = ws[s.pick("wrap", len(ws))]
+	c.Lower = s.pick("lower", 2) == 0
 	c.Rows = s.rows()
 	c.Perm = s.perm(len(c.Rows))
 	avoidOpenFindings(&c)
@@ -609,7 +610,12 @@ func TestSurvey(t *testing.T) {
 			if skip {
 				continue
 			}
-			key := d.Kind + " | " + strings.Join(shapeSig(c), ",")
+			ctx, _, _ := strings.Cut(d.Kind, ":")
+			key := d.Kind + " | "
+			if c.Mode != "fn" {
+				key += routeOf(ctx, &c) + " | "
+			}
+			key += strings.Join(shapeSig(c), ",")
 			e := by[key]
 			if e == nil {
 				e = &ent{ex: d.Detail, c: c}
